@@ -145,6 +145,7 @@ pub fn run_chain(scenario: &Value, s: &Sched) -> RunOut {
     // generate_mt wraps the message as {json_data: …}? accept both shapes like the end-to-end test does
     let data = generated.get("json_data").cloned().unwrap_or(generated.clone());
     out.generated = Some(data.clone());
+    if std::env::var("VERIF_C15_DEBUG").is_ok() { eprintln!("draws={} 32A={}", draws, data.pointer("/fields/32A/amount").map(|v| v.to_string()).unwrap_or_default()); }
     out.verdict = judge_generated(&data, &mut out.mt_text);
     out
 }
@@ -271,7 +272,7 @@ fn dev_values(thorough: bool) -> Vec<u64> {
 }
 
 #[derive(Default)]
-struct Acc { col: Collector, runs: u64, capped: u64, draws_max: usize, outcomes: std::collections::BTreeSet<String>, distinct_texts: std::collections::HashSet<u64>, nondet: Vec<String>, dev_points: u64, pair_runs: u64, clock_runs: u64 }
+struct Acc { col: Collector, wide_points: u64, runs: u64, capped: u64, draws_max: usize, outcomes: std::collections::BTreeSet<String>, distinct_texts: std::collections::HashSet<u64>, nondet: Vec<String>, dev_points: u64, pair_runs: u64, clock_runs: u64 }
 
 fn fnv(s: &str) -> u64 { let mut h = 0xcbf29ce484222325u64; for b in s.bytes() { h ^= b as u64; h = h.wrapping_mul(0x100000001b3); } h }
 
@@ -288,6 +289,7 @@ pub fn run(ctx: &Ctx) -> i32 {
     let dvals = dev_values(thorough);
     let clk = clocks(thorough);
     let pair_cap_points = if thorough { 400 } else { 0 };
+    let extra: usize = if thorough { 512 } else { 64 };
     let accs = par_for(scens.len(), 1, Acc::default, |k, acc: &mut Acc| {
         let sc = &scens[k];
         let t_sc = std::time::Instant::now();
@@ -327,9 +329,18 @@ pub fn run(ctx: &Ctx) -> i32 {
             if n >= DRAW_CAP { acc.outcomes.insert(format!("deviations-skipped(base {b:?} never terminates)")); continue; }
             for i in 0..n {
                 acc.dev_points += 1;
+                let mut seen_texts = std::collections::HashSet::new(); let mut tried = 0usize;
                 for v in &dvals {
                     if base_word(b, i) == *v { continue; }
+                    let before = acc.distinct_texts.len();
                     one(acc, &Sched { base: b.clone(), devs: vec![(i, *v)], clock: t0 }, "single deviation");
+                    tried += 1; if acc.distinct_texts.len() > before { seen_texts.insert(*v); }
+                }
+                // a draw point whose every alphabet value gave a message never seen before is a pick from a
+                // wide domain (a number, a long list): give it `extra` more values (first deviation base only)
+                if *b == dev_bases[0] && tried > 0 && seen_texts.len() + 1 >= tried {
+                    acc.wide_points += 1;
+                    for j in 0..extra { one(acc, &Sched { base: b.clone(), devs: vec![(i, base_word(&Base::Lcg(1000 + j as u64), i))], clock: t0 }, "single deviation (wide point)"); }
                 }
             }
         }
@@ -354,24 +365,25 @@ pub fn run(ctx: &Ctx) -> i32 {
         }
     });
     let mut runs = 0; let mut capped = 0; let mut dmax = 0; let mut outcomes = std::collections::BTreeSet::new(); let mut texts = 0usize; let mut nondet = vec![];
-    let mut per: Vec<Value> = vec![]; let (mut devp, mut pairs, mut clockr) = (0, 0, 0);
+    let mut per: Vec<Value> = vec![]; let (mut devp, mut pairs, mut clockr, mut wide) = (0, 0, 0, 0u64);
     for (k, a) in accs.into_iter().enumerate() {
         // par_for returns one accumulator per worker, not per item: only totals are meaningful
         let _ = k;
         runs += a.runs; capped += a.capped; dmax = dmax.max(a.draws_max); outcomes.extend(a.outcomes); texts += a.distinct_texts.len(); nondet.extend(a.nondet);
-        devp += a.dev_points; pairs += a.pair_runs; clockr += a.clock_runs;
+        devp += a.dev_points; pairs += a.pair_runs; clockr += a.clock_runs; wide += a.wide_points;
         col.merge(a.col);
     }
     per.push(json!({"note": "per-scenario numbers are not kept; totals below"}));
     ev.set("chain_executions", json!(runs));
     ev.set("draw_points_deviated", json!(devp));
     ev.set("pair_runs", json!(pairs));
+    ev.set("wide_draw_points_given_extra_values", json!(wide));
     ev.set("clock_runs", json!(clockr));
     ev.set("runs_cut_by_draw_cap", json!(capped));
     ev.set("max_draws_in_one_generation", json!(dmax));
     ev.set("distinct_published_messages", json!(texts));
     ev.set("distinct_outcomes", json!(outcomes));
-    ev.set("bounds", json!({"base_schedules": bases.len(), "deviation_bases": dev_bases.len(), "deviation_alphabet": dvals.len(), "clock_alphabet": clk.len(), "pairs_point_cap": pair_cap_points, "draw_cap": DRAW_CAP}));
+    ev.set("bounds", json!({"base_schedules": bases.len(), "deviation_bases": dev_bases.len(), "deviation_alphabet": dvals.len(), "clock_alphabet": clk.len(), "pairs_point_cap": pair_cap_points, "extra_values_per_wide_point": extra, "draw_cap": DRAW_CAP}));
     ev.assume("ThreadRng words and datafake's clock are the only nondeterminism of generate_mt (checked: each scenario's first schedule is run twice and must give identical JSON)");
     ev.assume("deviation alphabet = {0, MAX} + quantile midpoints: every outcome of a uniform pick among <= |quantiles| alternatives is reached at every draw point; picks from longer lists (names, cities) are covered at the quantiles only");
     ev.assume("clock domain 2024..2030 (+2049-12-31); years >= 2050 are outside the YYMMDD pivot window and unspecified");
